@@ -45,7 +45,7 @@ def digest (out : String) : List String :=
     let body := if s.startsWith "0x" then (s.drop 2).toString else s
     if !body.isEmpty && body.toList.all (fun c => c.isDigit || ('A' ≤ c && c ≤ 'F')) then some s else none
 
-def handleL4Core (strict : Bool) (head srcE inE : String) (expect : Option String) (ans : String) : Verdict :=
+def handleL4Core (strict : Bool) (head srcE inE : String) (expects : List String) (ans : String) : Verdict :=
     match words head, pctDecode srcE.trimAscii.toString, pctDecode inE.trimAscii.toString with
     | ["cli", flag], some src, some inp =>
       if ans.startsWith "NONDET" then
@@ -80,12 +80,16 @@ def handleL4Core (strict : Bool) (head srcE inE : String) (expect : Option Strin
       let sameDigest := !strict && fieldOf ans "exit" == fieldOf model "exit" && fieldOf ans "trace" == fieldOf model "trace"
         && fieldOf ans "regs" == fieldOf model "regs" && fieldOf ans "mem" == fieldOf model "mem" && digest realOut == digest r.stdout
       -- an expectation stated by the generator from the property itself (independent of model and grammar)
-      let expectOk := match expect with
-        | none => true
-        | some e => (realOut.splitOn e).length > 1
+      -- `ws:` prefix: compare after collapsing every run of white space (row layout of a dump is not part of it)
+      let collapse := fun (t : String) => " ".intercalate ((t.split (fun c => c == ' ' || c == '\t' || c == '\n' || c == '\r')).toList.map (·.toString) |>.filter (· != ""))
+      let holds := fun (e : String) =>
+        if e.startsWith "ws:" then ((collapse realOut).splitOn (collapse (e.drop 3).toString)).length > 1
+        else (realOut.splitOn e).length > 1
+      let failed := expects.filter (fun e => !holds e)
+      let expectOk := failed.isEmpty
       if !expectOk then
         { model := if ok then ans else model, specOk := false,
-          spec := s!"the output contains `{expect.getD ""}` (stated by the generator from the property)", nontrivial := true } else
+          spec := s!"the output contains `{failed.headD ""}` (stated by the generator from the property)", nontrivial := true } else
       { model := if ok then ans else model, specOk := specOk && (ok || sameDigest),
         spec := if ok then "exit status 0/1, no 'Internal Error' in the output" else "reference run: " ++ model,
         nontrivial := !r.diag && r.trace.length > 1 }
@@ -93,11 +97,10 @@ def handleL4Core (strict : Bool) (head srcE inE : String) (expect : Option Strin
 
 def handleL4 (strict : Bool) (req ans : String) : Verdict :=
   match req.splitOn " | " with
-  | [head, srcE, inE] => handleL4Core strict head srcE inE none ans
-  | [head, srcE, inE, expE] =>
-    if expE.startsWith "expect=" then
-      match pctDecode (expE.drop 7).toString.trimAscii.toString with
-      | some e => handleL4Core strict head srcE inE (some e) ans
+  | head :: srcE :: inE :: exps =>
+    if exps.all (·.startsWith "expect=") then
+      match exps.mapM (fun e => pctDecode (e.drop 7).toString.trimAscii.toString) with
+      | some es => handleL4Core strict head srcE inE es ans
       | none => bad
     else bad
   | _ => bad
